@@ -39,3 +39,46 @@ MUTANTS += [
     dict(id="c10-int-to-binary-parity", property="C10", file="sweetpea/_internal/core/binary.py",
          old="        if value % 2 == 0:", new="        if value % 2 == 0 and value != 6:"),
 ]
+
+# ---- the tree without one of the repairs (each must be caught by the check of the property it was found under)
+for _pid, _commit, _what in [
+        ("C26", "97da54f", "window-clamp"), ("C02", "97da54f", "window-clamp"), ("C08", "058f126", "short-window-indexerror"),
+        ("C07", "00d4dd9", "complex-varlists"), ("C26", "00d4dd9", "complex-varlists"), ("C07", "0d18af2", "pin-undefined"),
+        ("C07", "5761deb", "strided-runs"), ("C07", "dee2414", "sequential-sustain"), ("C28", "643f6e1", "opb-gt"),
+        ("C11", "acbf03f", "naive-switching-raise"), ("C16", "6cbce0c", "duplicate-derived"), ("C29", "0ce6ea3", "smgen-refusal"),
+        ("C16", "0ce6ea3", "smgen-refusal"), ("C17", "517536f", "mismatch-hidden"), ("C29", "b256ab8", "smgen-derived-dep"),
+        ("C24", "03b83f1", "merge-alignment"), ("C18", "3582d34", "shared-constraint"), ("C19", "c7da064", "print-mutates"),
+        ("C10", "c746387", "cardinality-range")]:
+    MUTANTS.append(dict(id=f"revert-{_what}-{_pid}", property=_pid, revert=_commit))
+
+CON = "sweetpea/_internal/constraint.py"
+XB = "sweetpea/_internal/cross_block.py"
+BLK = "sweetpea/_internal/block.py"
+COMB = "sweetpea/_internal/combinatorics.py"
+MUTANTS += [
+    # geometry / scoping
+    dict(id="c26-step-ignores-preamble", property="C26", file=XB, old="            step = within_block.num_trials - within_block.preamble_size", new="            step = within_block.num_trials"),
+    dict(id="c01-cross-partial-chunk-eq", property="C02", file=CON, old='                reqs.append(LowLevelRequest("LT", weight*crossing_weight+1, variables))', new='                reqs.append(LowLevelRequest("LT", weight*crossing_weight+2, variables))'),
+    dict(id="c01-atmost-k", property="C01", file=CON, old='            backend_request.ll_requests += list(map(lambda l: LowLevelRequest("LT", self.k + 1, l), sublists))',
+         new='            backend_request.ll_requests += list(map(lambda l: LowLevelRequest("LT", self.k + 2, l), sublists))'),
+    dict(id="c04-atleast-checker-lenient", property="C04", file=CON, old="        return self._potential_counts_conform_individually(counts, op.ge)", new="        return self._potential_counts_conform_individually(counts[1:], op.ge)"),
+    dict(id="c17-exactlyk-checker", property="C17", file=CON, old="        return sum(counts) == self.k", new="        return sum(counts) >= self.k"),
+    dict(id="c14-decode-offset", property="C14", file=BLK, old="                    return tuples[(variable - start) % len(f.levels)]", new="                    return tuples[(variable - start + 1) % len(f.levels)]"),
+    dict(id="c16-min-trials-max", property="C16", file=CON, old="            block.min_trials = max([block.min_trials, self.trials])", new="            block.min_trials = min([block.min_trials, self.trials])"),
+    dict(id="c13-inversion-radix", property="C13", file=COMB, old="    for k in range(n, n-m, -1):\n        result = j % k", new="    for k in range(n, n-m, -1):\n        result = j % (k if k > 2 else k + 1)"),
+    dict(id="c13-extract-order", property="C13", file=COMB, old="        components.append(n % s)\n        n //= s", new="        components.append(n % s)\n        n = n // s if s != 3 else n // 2"),
+    dict(id="c05-permcopies-count", property="C13", file=COMB, old="    return factorial(sum(counters)) // d", new="    return factorial(sum(counters)) // d if sum(counters) != 5 else factorial(5) // d + 1"),
+    dict(id="c27-update-header", property="C27", file="sweetpea/_internal/core/generate/sample_non_uniform.py", old="    negated_solution = [-1 * var for var in solution]", new="    negated_solution = [-1 * var for var in solution[:-1]] if len(solution) > 7 else [-1 * var for var in solution]"),
+    dict(id="c27-ind-chunk", property="C27", file="sweetpea/_internal/core/cnf.py", old="for idx in range(0, len(support_set), 10)]", new="for idx in range(0, len(support_set) - 1, 10)]"),
+    dict(id="c20-dicts-key-order", property="C20", file="sweetpea/_internal/main.py", old="        tuple_lists.append([dict(zip(keys, values)) for values in zip(*[experiment[key] for key in keys])])",
+         new="        tuple_lists.append([dict(zip(keys, values)) for values in zip(*[experiment[key] for key in sorted(keys)])])"),
+    dict(id="c21-percent-denominator", property="C21", file="sweetpea/_internal/main.py", old="            proportion = frequency / num_trials", new="            proportion = frequency / len(e[list(e.keys())[0]])"),
+    dict(id="c22-window-offbyone", property="C22", file="sweetpea/_internal/primitive.py", old="                    factor_idx[-k] = dependent_dict[f.name][idx-k]\n                outlist.append(factor_idx)\n        if len(outlist)<2:",
+         new="                    factor_idx[-k] = dependent_dict[f.name][idx-k] if k < 2 else dependent_dict[f.name][idx-k+1]\n                outlist.append(factor_idx)\n        if len(outlist)<2:"),
+    dict(id="c23-desugar-copies", property="C23", file="sweetpea/_internal/primitive.py", old="        derived_f = DerivedFactor(HiddenName(cast(str, self.name)), list(derived_levels.values()))",
+         new="        derived_f = DerivedFactor(HiddenName(cast(str, self.name)), list(derived_levels.values()))\n        flat_f.levels = flat_f.levels[:-1] if len(flat_f.levels) > 3 else flat_f.levels"),
+    dict(id="c09-random-exhaust", property="C09", file="sweetpea/_internal/sampling_strategy/random.py", old="            if len(used_keys) == possible_keys:\n                break", new="            if len(used_keys) >= possible_keys - 1 and possible_keys > 20:\n                break"),
+    dict(id="c25-nest-sustain", property="C25", file=XB, old="        outer_sustain_counts = [inner_len * sc for sc in outer_block.crossing_sustain_counts]", new="        outer_sustain_counts = [max(1, inner_len - 1) * sc for sc in outer_block.crossing_sustain_counts]"),
+    dict(id="c15-overlap-not-rejected", property="C15", file="sweetpea/_internal/derivation_processor.py", old="                        if level_tuple in according_level:\n                            raise ValueError(", new="                        if level_tuple in according_level and len(factor.levels) > 2:\n                            raise ValueError("),
+    dict(id="c03-tseitin-iff-missing-clause", property="C03", file="sweetpea/_internal/logic.py", old="            clauses.append(Or([Not(new_p), Not(new_q),     new_rep ]))\n", new=""),
+]
